@@ -425,6 +425,53 @@ mod v_iface_ingress {
         crate::vassert!(!sockets.get::<icmp::Socket>(ih).can_recv(), "prop:c08_bad_checksum_has_no_effect_on_sockets");
     }
 
+    // C03 "not wedged": with every reassembly slot occupied by unfinished datagrams (any idents / offsets) and the
+    // listener mid-handshake, a well-formed echo request to the own address is still answered.
+    // @harness props=C03,C12 cfg=KI4 tier=q to=1200 mem=8 unwind=10 opts=nomem covers=2 funcs=InterfaceInner::process_ip;InterfaceInner::process_ipv4;PacketAssemblerSet::get;PacketAssembler::add;InterfaceInner::process_icmpv4 bounds=raw-IP_medium;_3_arbitrary_first/middle_fragments_(any_ident,_8-aligned_offset<=64,_8_payload_bytes)_then_a_TCP_SYN,_then_an_echo_request
+    #[kani::proof]
+    pub(crate) fn echo_after_fragments() {
+        env4_tcp!(iface, sockets, th, Medium::Ip, ChecksumCapabilities::ignored());
+        let peer: u32 = 0xc0a8_0102;
+        let mut n_none = 0;
+        // three unfinished fragments with symbolic keys: fills both slots (the third finds the set full or shares a key)
+        let mut k = 0;
+        while k < 3 {
+            let mut f = [0u8; 28];
+            ipv4_header(&mut f, 28, 17, peer, OWN_U32);
+            let ident: u16 = kani::any();
+            let off8: u16 = kani::any();
+            kani::assume(off8 <= 8);
+            put16(&mut f, 4, ident);
+            put16(&mut f, 6, 0x2000 | off8);
+            let r = iface.inner.process_ip(&mut sockets, PacketMeta::default(), &f[..], &mut iface.fragments);
+            if r.is_none() { n_none += 1; }
+            k += 1;
+        }
+        // a SYN takes the listener to SYN-RECEIVED
+        let mut b = [0u8; 40];
+        ipv4_header(&mut b, 40, 6, peer, OWN_U32);
+        put16(&mut b, 20, 4000);
+        put16(&mut b, 22, TCP_PORT);
+        put32(&mut b, 24, kani::any());
+        b[32] = 0x50;
+        b[33] = 0x02;
+        put16(&mut b, 34, 100);
+        let _ = iface.inner.process_ip(&mut sockets, PacketMeta::default(), &b[..], &mut iface.fragments);
+        // the interface still answers a ping
+        let mut e = [0u8; 32];
+        ipv4_header(&mut e, 32, 1, peer, OWN_U32);
+        e[20] = 8;
+        put16(&mut e, 24, kani::any());
+        put16(&mut e, 26, kani::any());
+        let reply = iface.inner.process_ip(&mut sockets, PacketMeta::default(), &e[..], &mut iface.fragments);
+        crate::vassert!(reply.is_some(), "prop:c03_echo_request_answered_after_arbitrary_fragments");
+        if let Some(p) = &reply {
+            crate::vassert!(reply_src_legal(p), "prop:c10_reply_source_is_own_unicast_address");
+        }
+        kani::cover!(n_none == 3 && !tcp_untouched(&sockets, th), "fragments buffered, listener mid-handshake");
+        kani::cover!(reply.is_some(), "echo answered");
+    }
+
     // @harness props=C11,C03 kind=mustfail cfg=KI4 tier=q to=900 mem=8 unwind=8 opts=nomem
     #[kani::proof]
     pub(crate) fn iface_ingress_must_fail() {
